@@ -85,6 +85,8 @@ def run(ctx):
                       "of that class AND all its subclasses", floor=3)
     ctx.rule("R13.b", "the class-level cache is read only by Parameters._cls_parameters (anyone may reset it)", floor=1)
     ctx.rule("R13.c", "every consumer of the namespace goes through _cls_parameters / objects()", floor=6)
+    ctx.rule("R13.e", "a class-level set goes through the Parameter that is installed in the class namespace at that moment: on the copy-on-write branch the copy is installed "
+                      "(and the caches dropped) before its __set__(None, value) runs watchers", floor=1)
     ctx.rule("R13.d", "the memo is computed by walking the class's own MRO base-first and reading each class' __dict__ (so it agrees with attribute lookup, also in diamonds); "
                       "it is never assembled from other classes' memos", floor=1)
     ctx.not_decided += ["identity/equality of `.param[name]` and the governing descriptor after arbitrary histories (follows from R13.a-c but is not itself executed)"]
@@ -208,3 +210,21 @@ def run(ctx):
         else:
             ctx.fail("R13.d", cp, lp, "the MRO walk of _cls_parameters does not let the most derived declaration win (order %s, overwrite guard %s)" % (
                 "base-first" if base_first else "derived-first", guarded), key=cp.qualname + "::wrong-precedence")
+
+    # ---------------------------------------------------------------- R13.e
+    ms = ctx.repo.func("param.parameterized.ParameterizedMetaclass.__setattr__")
+    mc = ctx.facts.cfg(ms)
+    sets = [n for n in mc.live_nodes() for c in calls_in(n) if isinstance(c.func, ast.Attribute) and c.func.attr == "__set__" and c.args and norm(c.args[0]) == "None"]
+    ctx.require(sets, "metaclass __setattr__ no longer delegates to the descriptor's __set__(None, value)")
+    installs = [n for n in mc.live_nodes() for c in calls_in(n) if norm(c.func) == "type.__setattr__" and len(c.args) == 3 and isinstance(c.args[2], ast.Name)
+                and any("owning_class" in norm(e) for e, t in mc.conditions(n))]
+    for sn in sets:
+        early = [i for i in installs if any(x is i for x in mc.reachable_from([sn]))]
+        via_ns = any(isinstance(c.func, ast.Attribute) and c.func.attr == "__set__" and "__dict__" in norm(c.func.value) for c in calls_in(sn))
+        if early:
+            ctx.fail("R13.e", ms, sn, "`%s` runs (and dispatches class-level watchers) before the copied Parameter is installed in the class namespace: inside the callback "
+                                      "getattr / .param still resolve to the ancestor's Parameter, and a re-assignment made by the callback is overwritten" % sn.text()[:70],
+                     key=ms.qualname + "::set-before-install",
+                     input="class-level watcher on an inherited Parameter; first Sub.x = v -> inside the callback Sub.x is still the old value")
+        else:
+            ctx.ok("R13.e", ms, sn, "the set happens after the install%s" % (" and goes through the namespace entry" if via_ns else ""))
